@@ -112,6 +112,7 @@ func (propC03) Exec(p *Plan, x *Ctx) *Outcome {
 			}
 			run.ResetOpSteps()
 			results[i].got, results[i].st = in.step(o, tp.Sets, &dry)
+			results[i].got = c05MaskVolatile(results[i].got) // values of clock / random calls are not part of the outcome
 			executed = i + 1
 		}
 	})
